@@ -380,4 +380,153 @@ theorem C06_errclass_treeinfo_partial (m : TreeInfoM) (e : Err) (h : m.dumps = .
   · exact Or.inr (Or.inr (Or.inl h1))
   · exact Or.inr (Or.inr (Or.inr h1))
 
+/-! ## C06, converse: conforming objects are written -/
+
+/-- a walk succeeds when every validated part conforms and no writer-side check fires -/
+theorem converse_of_steps (steps : List Step) (hv : ∀ p, Step.validate p ∈ steps → p.Conforms)
+    (hc : ∀ r, Step.check r ∈ steps → r = .ok ()) : runSteps steps = .ok () := by
+  refine (runSteps_ok_iff steps).mpr fun s hs => ?_
+  cases s with
+  | validate p => exact validate2_accepts C06_generated_sub p (hv p hs)
+  | check r => exact hc r hs
+
+/-- a class without documented rules conforms trivially -/
+theorem conforms_of_empty (p : Part) (h : Spec.catalogue p.cls = []) : p.Conforms := by
+  intro r hr; rw [h] at hr; cases hr
+
+theorem validate_mem_vstep {flag : Bool} {cls : String} {o : Obj} {p : Part} (h : Step.validate p ∈ vstep flag cls o) : p = ⟨cls, o⟩ := by
+  unfold vstep at h
+  split at h
+  · simpa using h
+  · cases h
+
+theorem validate_mem_jsonHeader {h : Obj} {p : Part} (hm : Step.validate p ∈ jsonHeaderSteps h) :
+    p = ⟨"common.Header", withCurrentVersion h⟩ := by
+  have hflag := C06_flags.1
+  unfold jsonHeaderSteps at hm
+  simp only [hflag, if_true, List.mem_cons, List.not_mem_nil, or_false, Step.validate.injEq] at hm
+  exact hm
+
+/-- images: every valid manifest is written (no writer-side failure source exists in the walk) -/
+theorem C06_converse_images (m : ImagesM) (h : ∀ p ∈ m.parts, p.Conforms) : m.dumps = .ok () := by
+  refine converse_of_steps m.steps (fun p hp => ?_) (fun r hr => ?_)
+  · simp only [ImagesM.steps, List.mem_append, List.mem_flatMap] at hp
+    rcases hp with ((hp | hp) | hp) | ⟨o, ho, hp⟩
+    · exact validate_mem_vstep hp ▸ conforms_of_empty _ (by decide)
+    · exact validate_mem_jsonHeader hp ▸ h _ (by simp [ImagesM.parts])
+    · exact validate_mem_vstep hp ▸ h _ (by simp [ImagesM.parts])
+    · exact validate_mem_vstep hp ▸ h _ (by simp only [ImagesM.parts, List.mem_append, List.mem_map]; exact Or.inr ⟨o, ho, rfl⟩)
+  · exfalso
+    simp only [ImagesM.steps, jsonHeaderSteps, vstep, List.mem_append, List.mem_flatMap] at hr
+    rcases hr with ((hr | hr) | hr) | ⟨o, _, hr⟩ <;> (repeat (split at hr)) <;> simp at hr
+
+/-- rpms / modules / extra_files (`m.cls` one of the three top-level classes, none of which has a documented rule) -/
+theorem C06_converse_simple (m : SimpleM) (hcls : Spec.catalogue m.cls = []) (h : ∀ p ∈ m.parts, p.Conforms) : m.dumps = .ok () := by
+  refine converse_of_steps m.steps (fun p hp => ?_) (fun r hr => ?_)
+  · simp only [SimpleM.steps, List.mem_append] at hp
+    rcases hp with (hp | hp) | hp
+    · exact validate_mem_vstep hp ▸ conforms_of_empty _ hcls
+    · exact validate_mem_jsonHeader hp ▸ h _ (by simp [SimpleM.parts])
+    · exact validate_mem_vstep hp ▸ h _ (by simp [SimpleM.parts])
+  · exfalso
+    simp only [SimpleM.steps, jsonHeaderSteps, vstep, List.mem_append] at hr
+    rcases hr with (hr | hr) | hr <;> (repeat (split at hr)) <;> simp at hr
+
+theorem C06_converse_discinfo (m : DiscM) (h : ∀ p ∈ m.parts, p.Conforms) : m.dumps = .ok () := by
+  refine converse_of_steps m.steps (fun p hp => ?_) (fun r hr => ?_)
+  · simp only [DiscM.steps, List.mem_append] at hp
+    rcases hp with hp | hp <;> exact validate_mem_vstep hp ▸ h _ (by simp [DiscM.parts])
+  · exfalso
+    simp only [DiscM.steps, vstep, List.mem_append] at hr
+    rcases hr with hr | hr <;> (repeat (split at hr)) <;> simp at hr
+
+theorem validate_mem_evSteps (p : Part) : ∀ (evs : List Ev) (seen : List PyVal),
+    Step.validate p ∈ evSteps seen evs → ∃ ev ∈ evs, p ∈ evParts ev := by
+  intro evs
+  induction evs with
+  | nil => intro _ h; simp [evSteps] at h
+  | cons ev rest ih =>
+    intro seen h
+    cases ev with
+    | enter o rel =>
+      simp only [evSteps, List.mem_append, List.mem_cons, List.not_mem_nil, or_false] at h
+      rcases h with ((h | h) | h) | h
+      · cases h
+      · refine ⟨.enter o rel, List.mem_cons_self, ?_⟩
+        split at h
+        · rename_i hl
+          have := validate_mem_vstep h
+          simp [evParts, hl, this]
+        · cases h
+      · cases h
+      · obtain ⟨ev, hev, hp⟩ := ih seen h
+        exact ⟨ev, List.mem_cons_of_mem _ hev, hp⟩
+    | exit o =>
+      simp only [evSteps, List.mem_append, List.mem_cons, List.not_mem_nil, or_false] at h
+      rcases h with ((h | h) | h) | h
+      · cases h
+      · cases h
+      · exact ⟨.exit o, List.mem_cons_self, by simp [evParts, validate_mem_vstep h]⟩
+      · obtain ⟨ev, hev, hp⟩ := ih _ h
+        exact ⟨ev, List.mem_cons_of_mem _ hev, hp⟩
+
+/-- composeinfo: all written parts conform and none of the writer's own failure sources fires — `sorted(arches)` on
+incomparable elements, an unhashable arch or UID, a UID that an earlier variant already used — then the dump succeeds. -/
+theorem C06_converse_composeinfo (m : ComposeInfoM) (h : ∀ p ∈ m.parts, p.Conforms)
+    (hw : ∀ r, Step.check r ∈ evSteps [] m.events → r = .ok ()) : m.dumps = .ok () := by
+  refine converse_of_steps m.steps (fun p hp => ?_) (fun r hr => ?_)
+  · simp only [ComposeInfoM.steps, List.mem_append] at hp
+    rcases hp with (((((hp | hp) | hp) | hp) | hp) | hp) | hp
+    · exact validate_mem_vstep hp ▸ conforms_of_empty _ (by decide)
+    · exact validate_mem_jsonHeader hp ▸ h _ (by simp [ComposeInfoM.parts])
+    · exact validate_mem_vstep hp ▸ h _ (by simp [ComposeInfoM.parts])
+    · exact validate_mem_vstep hp ▸ h _ (by simp [ComposeInfoM.parts])
+    · split at hp
+      · rename_i hl
+        exact validate_mem_vstep hp ▸ h _ (by simp [ComposeInfoM.parts, hl])
+      · cases hp
+    · exact validate_mem_vstep hp ▸ h _ (by simp [ComposeInfoM.parts])
+    · obtain ⟨ev, hev, hpe⟩ := validate_mem_evSteps p _ _ hp
+      exact h p (by simp only [ComposeInfoM.parts, List.mem_append, List.mem_flatMap]; exact Or.inr ⟨ev, hev, hpe⟩)
+  · simp only [ComposeInfoM.steps, List.mem_append] at hr
+    rcases hr with (((((hr | hr) | hr) | hr) | hr) | hr) | hr
+    · exact absurd hr (by unfold vstep; split <;> simp)
+    · exact absurd hr (by unfold jsonHeaderSteps vstep; (repeat split) <;> simp)
+    · exact absurd hr (by unfold vstep; split <;> simp)
+    · exact absurd hr (by unfold vstep; split <;> simp)
+    · exact absurd hr (by unfold vstep; (repeat split) <;> simp)
+    · exact absurd hr (by unfold vstep; split <;> simp)
+    · exact hw r hr
+
+/-! ## F19: the witness (replayed on the real code by the harness) -/
+
+/-- a childless top-level variant whose uid is `None`: `_validate_uid` calls `None.replace` — AttributeError, neither TypeError
+nor ValueError — although `uid` breaks its documented rule -/
+theorem C06_F19_witness :
+    let v : Obj := [(c!"id", .str c!"Server"), (c!"uid", .none), (c!"name", .str c!"Server"), (c!"type", .str c!"variant"),
+                    (c!"arches", .list [.str c!"x86_64"])]
+    let m : ComposeInfoM := ⟨[], [(c!"id", .str c!"F-1-20200101.0"), (c!"date", .str c!"20200101"), (c!"type", .str c!"production"),
+        (c!"respin", .int 0), (c!"label", .none), (c!"final", .bool false)],
+      [(c!"name", .str c!"F"), (c!"short", .str c!"F"), (c!"version", .str c!"1"), (c!"type", .str c!"ga"), (c!"is_layered", .bool false),
+       (c!"internal", .bool false)], [], [.mk c!"Server" v [] []]⟩
+    (match m.dumps with | .error .attributeError => true | _ => false) = true := by decide +kernel
+
+/-! ## non-vacuity: concrete instances of the hypotheses -/
+
+def isOk {α} : Except Err α → Bool | .ok _ => true | .error _ => false
+def conformsB (p : Part) : Bool := (Spec.catalogue p.cls).all fun r => isOk (r.check customs2 p.obj)
+
+def exCompose : Obj := [(c!"id", .str c!"F-1-20200101.n.0"), (c!"date", .str c!"20200101"), (c!"type", .str c!"nightly"),
+  (c!"respin", .int 0), (c!"label", .str c!"RC-1.0"), (c!"final", .bool true)]
+def exImage (size : PyVal) : Obj := [(c!"path", .str c!"Server/x86_64/iso/boot.iso"), (c!"mtime", .int 1), (c!"size", size), (c!"volume_id", .none),
+  (c!"type", .str c!"boot"), (c!"format", .str c!"iso"), (c!"arch", .str c!"x86_64"), (c!"disc_number", .int 1), (c!"disc_count", .int 1),
+  (c!"checksums", .dict [(c!"md5", .str c!"aa")]), (c!"implant_md5", .none), (c!"bootable", .bool true), (c!"subvariant", .str []),
+  (c!"unified", .bool false), (c!"additional_variants", .list [])]
+def exImages (size : PyVal) : ImagesM := ⟨[(c!"version", .str c!"0.0")], exCompose, [(c!"Server", [(c!"x86_64", [exImage size])])]⟩
+
+/-- a manifest all of whose parts conform (hypothesis of `C06_converse_images`) and which is written -/
+example : (exImages (.int 1)).parts.all conformsB = true ∧ isOk (exImages (.int 1)).dumps = true := by decide +kernel
+/-- … and one image field corrupted (`size = 0`): a part violates the catalogue (hypothesis of `C06_enforced_images`), dump refused -/
+example : (exImages (.int 0)).parts.all conformsB = false ∧ isOk (exImages (.int 0)).dumps = false := by decide +kernel
+
 end PM
